@@ -132,6 +132,62 @@ def parse_stdout(fmt, out_bytes, check):
     return info
 
 
+def split_lines(text):
+    """Lines including their terminator (split on \\n only, like `similar`)."""
+    out, i = [], 0
+    while i < len(text):
+        j = text.find("\n", i)
+        if j < 0:
+            out.append(text[i:])
+            break
+        out.append(text[i:j + 1])
+        i = j + 1
+    return out
+
+
+def diff_facts(sc, before, so, out_bytes):
+    """C18 facts: old / new as sequences of line identifiers, the printed hunks / mismatches in the same terms."""
+    path = sc["diff_facts"]["path"]
+    ent = next(e for e in sc["tree"] if e["path"] == path)
+    old = before[path]["bytes"].decode("utf-8", "replace")
+    new = (ent.get("expect") or {}).get("fmt")
+    ids = {}
+
+    def lid(line):
+        return ids.setdefault(line, len(ids) + 1)
+
+    f = {"old": [lid(l) for l in split_lines(old)], "same": new is not None and old == new}
+    f["new"] = [lid(l) for l in split_lines(new)] if new is not None else []
+    f["have_new"] = new is not None
+    if "unified" in so:
+        hunks, cur = [], None
+        lines = so["unified"].split("\n")
+        k = 0
+        while k < len(lines):
+            ln = lines[k]
+            m = re.match(r"^@@ -(\d+)(?:,(\d+))? \+(\d+)(?:,(\d+))? @@", ln)
+            if m:
+                cur = {"old_start": int(m.group(1)), "old_len": int(m.group(2) or 1), "new_start": int(m.group(3)), "new_len": int(m.group(4) or 1), "lines": []}
+                hunks.append(cur)
+            elif cur is not None and ln[:1] in (" ", "-", "+"):
+                content = ln[1:]
+                nonl = k + 1 < len(lines) and lines[k + 1].startswith("\\ No newline")
+                cur["lines"].append({"tag": ln[0], "id": lid(content if nonl else content + "\n")})
+            k += 1
+        # a trailing empty split element is not a line
+        f["hunks"] = hunks
+    if "json" in so:
+        ms = []
+        for rec in so["json"]:
+            for m in rec.get("mismatches", []):
+                ms.append({"os": m["original_start_line"], "oe": m["original_end_line"], "es": m["expected_start_line"], "ee": m["expected_end_line"],
+                           "exp": [lid(l) for l in split_lines(m["expected"])], "orig": [lid(l) for l in split_lines(m["original"])],
+                           "is_insert": m["original"] == "", "is_delete": m["expected"] == ""})
+        f["mismatches"] = ms
+    f["n_ids"] = len(ids)
+    return f
+
+
 def run_one(idx, sc, binary, keep=False):
     base = tempfile.mkdtemp(prefix="stylua-verif-")
     evs = []
@@ -228,6 +284,8 @@ def run_one(idx, sc, binary, keep=False):
         for k in ("json", "unified", "summary_footer_ok"):
             if k in so:
                 fin["so_" + k] = so[k]
+        if sc.get("diff_facts"):
+            fin["diff"] = diff_facts(sc, before, so, out)
         fin["extra"] = sc.get("extra", {})
         evs.append(fin)
     finally:
